@@ -171,7 +171,7 @@ PROPS = {
     },
     "C07": {
         "lean_modules": ["Cachelito.Props.C07", "Cachelito.Props.T02", "Cachelito.Props.T07", "Cachelito.Props.T08", "Cachelito.Props.T09", "Cachelito.Props.T10", "Cachelito.Props.T11", "Cachelito.Props.T12", "Cachelito.Props.T14", "Cachelito.Props.T15", "Cachelito.Props.T16", "Cachelito.Props.S01"],
-        "streams": [core_stream(filters=[["policy=fifo"], ["policy=lru"]], nontrivial=["eviction"])],
+        "streams": [core_stream(filters=[["policy=fifo"], ["policy=lru"]], nontrivial=["eviction"]), hammer_stream()],
         "monitors": ["C07"],
         "rule": "FIFO and LRU episodes on all three engines under entry limits 1..4, memory limits and both; non-trivial = a store that evicted",
         "level_text": "Lean theorems with ghost stamps derived from the history: the queue is sorted by last-store time (FIFO) / last-use time (LRU) in every reachable state, every eviction pops the queue head, hence every key removed by a store (entry limit or memory loop, several victims) is older than every surviving key; reads never change FIFO order. All flavours.",
